@@ -67,7 +67,7 @@ vars == <<l, st>>
 Init0 == [game |-> B!NewBoard(Decode(StartFen).pos, 0, 1), nextgame |-> B!NewBoard(Decode(StartFen).pos, 0, 1), lastcmd |-> "", lastline |-> <<>>,
           pending |-> FALSE, cur |-> 0, launched |-> 0, infinite |-> FALSE, stopped |-> FALSE,
           ended |-> {}, moves |-> [k \in {} |-> ""], winners |-> <<>>, asked |-> 0, readyok |-> 0,
-          exited |-> FALSE, mayexit |-> FALSE, fails |-> {}, bookgo |-> FALSE, nbest |-> 0, ngo |-> 0, unsettled |-> FALSE]
+          exited |-> FALSE, mayexit |-> FALSE, fails |-> {}, bookgo |-> FALSE, nbest |-> 0, ngo |-> 0, unsettled |-> FALSE, final |-> FALSE, busy |-> FALSE]
 
 AddFail(s, name, cond) == IF cond THEN s ELSE [s EXCEPT !.fails = @ \cup {name}]
 
@@ -76,7 +76,7 @@ Step(s, ev, stub) ==
   LET nm == ev.name a == ev.args IN
   CASE nm = "uci.loop.cmd" ->
          LET t == Tokens(a[1]) c == IF Len(t) = 0 THEN "" ELSE t[1] IN
-         [s EXCEPT !.lastcmd = c, !.lastline = t,
+         [s EXCEPT !.lastcmd = c, !.lastline = t, !.busy = TRUE,
                    \* the game changes when the loop starts processing the command (its ensureInactive step),
                    \* not when it merely dequeues it: a completion decided in between still belongs to the old game
                    !.nextgame = IF IsPosition(t) THEN Describe(t) ELSE s.game,
@@ -121,6 +121,14 @@ Step(s, ev, stub) ==
          ELSE s
     [] nm = "uci.loop.exit" -> [AddFail(s, "c16.driver-exited", s.mayexit) EXCEPT !.exited = TRUE]
     [] nm = "harness.eof" -> [s EXCEPT !.mayexit = TRUE]
+    [] nm = "harness.final-run" -> [s EXCEPT !.final = TRUE]
+    [] nm = "uci.loop.idle" -> [s EXCEPT !.busy = FALSE]
+    \* the scenario process died with a Go panic (the events up to then were logged as they were recorded):
+    \* a crash of the driver; and a go that is being processed or still awaits its answer is never answered
+    [] nm = "harness.crash" ->
+         LET s1 == AddFail(s, "c16.crash", ~Want("C16"))
+         IN AddFail(s1, "c04.go-unanswered-driver-crashed",
+                    ~(Want("C04") /\ (s.pending \/ (s.busy /\ s.lastcmd = "go" /\ GoOK(s.lastline)))))
     [] nm = "harness.undelivered" -> AddFail(s, "c16.command-not-taken", s.exited)
     [] nm = "quiescent" ->
          \* a scenario the harness could not bring to rest in time (a loaded machine) is judged for what was
@@ -128,7 +136,13 @@ Step(s, ev, stub) ==
          \* a[2]: quit / end of input was sent; a[3]: the driver closed its output channel.  A driver that has
          \* not shut down several seconds after quit / EOF is not "a slow machine"
          IF a[2] /\ ~a[3] THEN AddFail(s, "c16.shutdown-incomplete", FALSE) ELSE
-         IF ~a[1] THEN [s EXCEPT !.unsettled = TRUE] ELSE
+         \* not at rest: the first time the driver runs the scenario again on its own with a long limit
+         \* ("final"); a scenario that does not come to rest then either is a driver that is stuck
+         IF ~a[1] THEN
+            (IF ~s.final THEN [s EXCEPT !.unsettled = TRUE]
+             ELSE LET s1 == AddFail(s, "c16.does-not-come-to-rest", ~Want("C16"))
+                  IN AddFail(s1, "c04.go-unanswered-driver-stuck", ~(Want("C04") /\ s.pending /\ (~s.infinite \/ s.stopped))))
+         ELSE
          LET s1 == s
              s2 == AddFail(s1, "c16.isready-unanswered", s.exited \/ s.readyok = s.asked)
              \* a pending go must have been answered if its search ended by itself (and it is not an
@@ -155,7 +169,7 @@ Next ==
               f == { x \in s.fails : (Want("C04") /\ SubSeq(x, 1, 3) = "c04") \/ (Want("C16") /\ SubSeq(x, 1, 3) = "c16") \/ SubSeq(x, 1, 3) = "har" }
           IN /\ (f # {} => PrintT("FAIL|" \o ToString(l) \o "|" \o ToString(f)))
              /\ PrintT("NOTE|scenario|go=" \o ToString(s.ngo) \o "|best=" \o ToString(s.nbest))
-             /\ (s.unsettled => PrintT("NOTE|unsettled"))
+             /\ (s.unsettled => PrintT("NOTE|unsettled|" \o ToString(l)))
              /\ st' = f
      ELSE st' = {}
   /\ l' = l + 1
